@@ -15,6 +15,7 @@ from .symbolic import (
     ElseIf,
     Union as EQLUnion,
     Literal,
+    Flatten,
     OperationResult,
     LogicalBinaryOperator,
     QueryObjectDescriptor,
@@ -55,9 +56,27 @@ class ConclusionSelector(LogicalBinaryOperator, ABC):
                 lambda v: not isinstance(v.value, Literal)
             )
             required_vars.update(vars_)
+        required_ids = {v.id_ for v in required_vars}
+        # the element of a flattened collection a conclusion is built from is a binding of its own
+        for conclusion in conclusions:
+            for child_var in getattr(conclusion.value, "_child_vars_", {}).values():
+                for node in [child_var, *child_var._descendants_]:
+                    if isinstance(node, Flatten):
+                        required_ids.add(node._id_)
         required_output = {
-            k: v for k, v in output.bindings.items() if k in required_vars
+            k: v for k, v in output.bindings.items() if k in required_ids
         }
+        if not required_output:
+            # the conclusions mention no variable of the binding (constant conclusions): a binding is identified by
+            # the variables of the selector's own conditions
+            own_variables = {
+                v.id_
+                for v in self._unique_variables_
+                if not isinstance(v.value, Literal)
+            }
+            required_output = {
+                k: v for k, v in output.bindings.items() if k in own_variables
+            }
 
         # one coverage index per truth branch AND per set of conclusions: a binding for which one branch
         # concluded may still trigger the conclusions of another branch (next_rule)
